@@ -20,7 +20,7 @@ for l in open(sys.argv[1],errors='replace'):
     except Exception: continue
     t=e.get('Test'); 
     if e.get('Package'): seenpk.add(e['Package'])
-    if not t or '/' in t: continue
+    if not t: continue
     k=e['Package']+'::'+t
     if e.get('Action')=='pass': passed.add(k)
     elif e.get('Action')=='fail': failed.add(k)
